@@ -178,7 +178,7 @@ def compile_one(src_abs, key_name, flags, inc, index, kind="bc", force_src_text=
         if k == ent.get("key"):
             if ent.get("ok") and os.path.exists(os.path.join(OBJ, k + ".bc")):
                 return dict(ok=True, bc=os.path.join(OBJ, k + ".bc"), cached=True, key=k, name=key_name, compat=ent.get("compat", []))
-            if not ent.get("ok"):
+            if not ent.get("ok") and key_name.startswith("repo:"):
                 return dict(ok=False, log=ent.get("log", ""), cached=True, key=k, name=key_name)
         elif os.path.exists(os.path.join(OBJ, k + ".bc")):
             # same dependency contents as an earlier build (e.g. an edit that was reverted)
@@ -217,7 +217,10 @@ def compile_one(src_abs, key_name, flags, inc, index, kind="bc", force_src_text=
         else:
             log = p.stdout[-3000:]
             res["log"] = log
-            index[key_name] = dict(deps=deps, key=k, ok=False, log=log)
+            if key_name.startswith("repo:"):
+                index[key_name] = dict(deps=deps, key=k, ok=False, log=log)
+            else:
+                index.pop(key_name, None)  # failures of /verif sources are never cached
         return res
     finally:
         shutil.rmtree(tmpd, ignore_errors=True)
